@@ -20,6 +20,7 @@ import (
 	"path/filepath"
 	"sort"
 	"strings"
+	"sync"
 
 	"seehuhn.de/go/postscript"
 	"seehuhn.de/go/postscript/afm"
@@ -84,6 +85,8 @@ type c17Value struct {
 	orderCMap []byte
 	// an AFM text in which several glyph names claim the same character code
 	dupAFM []byte
+	// font files that register more than one entry in the font directory
+	multiFont [][]byte
 }
 
 func genC17Value(c *rt.C, quick bool) c17Value {
@@ -159,6 +162,25 @@ func genC17Value(c *rt.C, quick bool) c17Value {
 	}
 	ab.WriteString("EndCharMetrics\nEndFontMetrics\n")
 	v.dupAFM = []byte(ab.String())
+	// font files which register a second entry in the font directory: a
+	// re-encoded copy under the same /FontName, a copy with another /FontName,
+	// and the same dictionary under a second key. Whatever the reader makes of
+	// such a file (a font or an error), it has to be the same every time.
+	{
+		var plain bytes.Buffer
+		small := genFont(rng, &fontOpts{maxGlyphs: 12})
+		small.FontInfo.FontName = "Multi"
+		if err := small.Write(&plain, &type1.WriterOptions{Format: type1.FormatNoEExec}); err == nil {
+			for _, tail := range []string{
+				"/Second /Multi findfont dup length dict copy dup /Encoding [ 256 { /.notdef } repeat ] put definefont pop\n",
+				"/Second /Multi findfont dup length dict copy dup /FontName /Other put definefont pop\n",
+				"/Alias /Multi findfont definefont pop\n",
+				"/Second /Multi findfont dup length dict copy dup /FontMatrix [ 1 0 0 1 0 0 ] put definefont pop /Third /Multi findfont dup length dict copy dup /PaintType 2 put definefont pop\n",
+			} {
+				v.multiFont = append(v.multiFont, append(append([]byte(nil), plain.Bytes()...), tail...))
+			}
+		}
+	}
 	// a font file with seac composites, including a composite of a composite
 	mf := genModelFontOpt(rng, true)
 	mf.lay.Container = "pfa"
@@ -188,6 +210,10 @@ func c17Digests(v c17Value) []string {
 	}
 	f3, err := type1.Read(bytes.NewReader(v.seacPFA))
 	out = append(out, fmt.Sprintf("type1.Read/seac %s err=%v", fontDigest(f3), err))
+	for i, mfile := range v.multiFont {
+		f4, err := type1.Read(bytes.NewReader(mfile))
+		out = append(out, fmt.Sprintf("type1.Read/several-fonts-%d %s err=%v", i, fontDigest(f4), err))
+	}
 	buf.Reset()
 	err = v.metrics.Write(&buf)
 	afmBytes := append([]byte(nil), buf.Bytes()...)
@@ -282,6 +308,40 @@ func runC17(r *rt.Runner) {
 					}
 				}
 				c.Count("in-process repeats")
+			}
+			// overlapping invocations: the same digests computed by several
+			// goroutines at once (the values are only read)
+			{
+				const G = 6
+				res := make([][]string, G)
+				var wg sync.WaitGroup
+				for gi := 0; gi < G; gi++ {
+					wg.Add(1)
+					go func(gi int) {
+						defer wg.Done()
+						defer func() {
+							if p := recover(); p != nil {
+								res[gi] = []string{fmt.Sprintf("panic: %v", p)}
+							}
+						}()
+						res[gi] = c17Digests(v)
+					}(gi)
+				}
+				wg.Wait()
+				for gi := 0; gi < G; gi++ {
+					c.Eval()
+					for j := range ref0 {
+						if j >= len(res[gi]) || res[gi][j] != ref0[j] {
+							got := "(missing)"
+							if j < len(res[gi]) {
+								got = res[gi][j]
+							}
+							c.Violation("overlapping|"+strings.Fields(ref0[j])[0], fmt.Sprintf("an invocation that overlaps with others on the same input differs from the one made alone:\n  alone:       %s\n  overlapping: %s", ref0[j], got), "")
+							break
+						}
+					}
+					c.Count("overlapping invocations compared")
+				}
 			}
 			// fresh processes
 			exe, err := os.Executable()
